@@ -121,8 +121,13 @@ RawBoolCases ==
   \cup {[wire |-> <<U8(3)>> \o Utf8(KA) \o <<U8(1), U8(255)>> \o Utf8(KB) \o <<U8(5)>> \o ObjEnd,
          v |-> Obj(<<<<KA, Bool(TRUE)>>, <<KB, Null>>>>)]}
 
+\* the 16-bit length limit of names and strings, and one below
+FamMax(z) == {Str(Fill(65535, 20)), Str(Fill(65534, 20)), Obj(<<<<Fill(65535, 11), Null>>>>),
+              Obj(<<<<KA, Str(Fill(65535, 21))>>, <<KB, One>>>>), Ecma(<<0, 0>>, <<<<Fill(65534, 12), Str(Fill(65535, 22))>>>>)}
+
 FamVals(f) ==
   CASE f = "scalar" -> FamScalar
+    [] f = "maxlen" -> FamMax(0)
     [] f = "single" -> FamSingle(0)
     [] f = "shape"  -> FamShape(0)
     [] f = "long"   -> FamLong(0)
